@@ -255,7 +255,7 @@ Definition expand (p : program) : program := expand_from [] [] p.
 End Mechanism.
 
 (* ---------------------------------------------------------------- the instance d2ir runs (ASCII names):
-   strings.EqualFold, the pinned matchPattern (a panic counts as "no match": the harness keeps such names out) *)
+   strings.EqualFold, d2ir.matchPattern (Model.match_pattern; a panic of the pre-ef9a8be47 code counts as "no match") *)
 Definition keq_go (a b : str) : bool := str_eqb (go_lower a) (go_lower b).
 Definition mt_go (n : str) (p : list str) : bool := match match_pattern n p with Ok b => b | Crash => false end.
 
